@@ -117,13 +117,54 @@ theorem cgLoop_exit (fuel : Nat) {st : St α} (h : Reach cs B g Δ tol maxIter s
       · omega
       · rw [hi]; push_cast; omega
 
+theorem steihaugLoop_exit (tolMax tolScale tolRoot : α) :
+    ∃ st₁, Reach cs B g Δ (cgTolerance tolMax tolScale tolRoot (norm2 g)) maxIter st₁ ∧
+      cgStep cs B g Δ (cgTolerance tolMax tolScale tolRoot (norm2 g)) maxIter st₁ =
+        .inl (steihaugLoop cs B g Δ tolMax tolScale tolRoot maxIter) := by
+  apply cgLoop_exit L hB hg hΔ hg0 (cgFuel maxIter) Reach.start
+  simp only [cgFuel, cgStart_eq]
+  omega
+
+omit hB hg hΔ hg0 in
+/-- The zero-gradient test `‖g‖ == 0` of `solve` is `‖g‖² = 0`. -/
+theorem cgZeroGrad_iff (g : Vec α) : cgZeroGrad (cgInit g).2.2.2 = true ↔ sqNorm g = 0 := by
+  show (norm2 g == 0) = true ↔ _
+  rw [beq_iff_eq]
+  have h0 : 0 ≤ sqNorm g := sqNorm_nonneg g
+  constructor
+  · intro h
+    have := L.sqrt_mul_self _ h0
+    unfold norm2 at h
+    rw [h, mul_zero] at this
+    exact this.symm
+  · intro h
+    unfold norm2
+    rw [h]
+    have := L.sqrt_mul_self (0 : α) (le_refl _)
+    exact mul_self_eq_zero.mp this
+
+omit hB hg hΔ in
+/-- For a non-zero gradient `solve` is its loop. -/
+theorem steihaug_eq_loop (tolMax tolScale tolRoot : α) :
+    steihaug cs B g Δ tolMax tolScale tolRoot maxIter
+      = steihaugLoop cs B g Δ tolMax tolScale tolRoot maxIter := by
+  unfold steihaug
+  have : ¬ cgZeroGrad (cgInit g).2.2.2 = true := fun h => hg0.ne' ((cgZeroGrad_iff L g).mp h)
+  rw [if_neg this]
+
+omit hB hg hΔ hg0 in
+/-- For a zero gradient `solve` returns the origin with value 0 before the loop. -/
+theorem steihaug_zero_grad (tolMax tolScale tolRoot : α) (h : sqNorm g = 0) :
+    steihaug cs B g Δ tolMax tolScale tolRoot maxIter = ⟨zeros g.length, 0, .zeroGrad, cgStart g, 0⟩ := by
+  unfold steihaug
+  rw [if_pos ((cgZeroGrad_iff L g).mpr h)]
+
 theorem steihaug_exit (tolMax tolScale tolRoot : α) :
     ∃ st₁, Reach cs B g Δ (cgTolerance tolMax tolScale tolRoot (norm2 g)) maxIter st₁ ∧
       cgStep cs B g Δ (cgTolerance tolMax tolScale tolRoot (norm2 g)) maxIter st₁ =
         .inl (steihaug cs B g Δ tolMax tolScale tolRoot maxIter) := by
-  apply cgLoop_exit L hB hg hΔ hg0 (cgFuel maxIter) Reach.start
-  simp only [cgFuel, cgStart_eq]
-  omega
+  rw [steihaug_eq_loop L hg0]
+  exact steihaugLoop_exit L hB hg hΔ hg0 tolMax tolScale tolRoot
 
 /-- Along the run the model value never exceeds `m(0) = 0`. -/
 theorem reach_le_zero {st : St α} (h : Reach cs B g Δ tol maxIter st) : model B g st.z ≤ 0 := by
